@@ -10,6 +10,10 @@ checks = {
  "C01": dict(cat="other", tech="bounded symbolic execution of go/ssa + SMT (z3), AES as uninterpreted function",
     text="Every assertion of the per-gate inductive garbling step is an SMT obligation over all labels, R, AES keys and input bits (AES uninterpreted); gate type and wiring over 2-4 wires case-split by the solver. Bounded verification, not a proof: whole-circuit composition rests on the re-established invariant.",
     ref="DESIGN.md C01", engine="gosymx"),
+ "C07": dict(cat="translation_validation", tech="SMT miter (z3) of the real builders' gate lists against bit-vector reference semantics, all operand values",
+    text="Each real builder invocation (operator x operand widths x result width x target x algorithm) is compiled by the real circuits.Compiler and its output is proved equal to the exact function mod 2^wz for ALL operand values by z3 (per-output-bit incremental miter); the width/configuration quantifier is an enumerated, stated family. Counterexamples are replayed through the real Circuit.Compute.",
+    ref="DESIGN.md C07", engine="circtv", script="python3-vt",
+    note="Trusted base: z3; the 60-line gate-to-term translation (same semantics as Circuit.Compute); the reference terms. Builders run natively from /repo's working tree (extractor rebuilt every run). Bounds and the exotic width classes recorded as known findings are listed in the evidence file and known_findings.txt."),
 }
 na = {
  "C08": "whole-compiler run-time nondeterminism (Go map iteration order, scheduling across compiler runs) cannot be made symbolic: it would need the entire MPCL compiler executed inside the symbolic engine; no bounded kernel isolates the order dependence",
@@ -40,8 +44,8 @@ for pid in sorted(checks):
     script = "checks/%s.py" % pid.lower()
     m["checks"].append({
         "property_id": pid,
-        "quick_cmd": "python3 %s quick" % script,
-        "thorough_cmd": "python3 %s thorough" % script,
+        "quick_cmd": "%s %s quick" % (c.get("script", "python3"), script),
+        "thorough_cmd": "%s %s thorough" % (c.get("script", "python3"), script),
         "evidence_file": "/verif/evidence/%s.json" % pid,
         "replay_cmd_template": "python3 checks/replay.py {path}",
         "engine": c["engine"],
